@@ -73,6 +73,12 @@ def make_problem(spec):
         p.lb[:] = -np.inf
         fixed = ~np.isfinite(p.ub)
         p.x0 = np.where(fixed, p.x0, p.ub) - float(spec["far_start"]) * (0.5 + rng.random(p.n))
+    if spec.get("fscale"):
+        # the same problem in other units of the objective (values and gradients multiplied by a power of two: exact)
+        k = float(spec["fscale"])
+        f_, g_ = p.fun, p.grad
+        p.fun = lambda x, f_=f_, k=k: k * f_(x)
+        p.grad = lambda x, g_=g_, k=k: k * np.asarray(g_(x), float)
     return p
 
 
